@@ -6,8 +6,10 @@ model/Telnet.v [run] against both real transports over scripted sockets on the s
 import asyncio
 import itertools
 import os
+import sys
 
 from . import common
+from . import c15_sessions
 from .common import coq_bytes, coq_list, coq_bool
 
 LEVEL = "proof"
@@ -207,16 +209,83 @@ def segmentations(rng, s, exhaustive2, n_random):
 
 HEADER = """From Verif Require Import Bytes Telnet.
 From Gen Require Import Gen_Telnet.
-Definition chk (c : bool * list bytes * bytes * bytes) : bool :=
-  let '(counting, chunks, out, rep) := c in
-  let (o, r) := run true counting (if counting then gen_limit_sync else gen_limit_async) chunks in
-  beq o out && beq r rep.
+Fixpoint cmp (g : list (bytes * bytes)) (w : list (list bytes * bytes * bytes)) : bool :=
+  match g, w with
+  | [], [] => true
+  | (o, r) :: g', (_, o', r') :: w' => beq o o' && beq r r' && cmp g' w'
+  | _, _ => false
+  end.
+(* a case = a history of one transport object: per session the recv results, the bytes its read()
+   calls delivered and the bytes written to its connection.  One session: [run] (what the theorems
+   negotiation_invisible / seg_independent / sync_eq_async are about); several: [run_sessions]. *)
+Definition chk (c : bool * list (list bytes * bytes * bytes)) : bool :=
+  let '(counting, ss) := c in
+  let limit := if counting then gen_limit_sync else gen_limit_async in
+  match ss with
+  | [(chunks, out, rep)] => let (o, r) := run true counting limit chunks in beq o out && beq r rep
+  | _ => cmp (run_sessions true true counting limit t_init (map (fun x => fst (fst x)) ss)) ss
+  end.
 """
+CASE_TYPE = "bool * list (list bytes * bytes * bytes)"
 
 
 def case_term(counting, chunks, out, rep):
-    return "(%s, %s, %s, %s)" % (coq_bool(counting), coq_list([coq_bytes(c) for c in chunks]),
-                                 coq_bytes(out), coq_bytes(rep))
+    return sessions_term(counting, [(chunks, out, rep)])
+
+
+def sessions_term(counting, sessions):
+    return "(%s, %s)" % (coq_bool(counting), coq_list(
+        ["(%s, %s, %s)" % (coq_list([coq_bytes(c) for c in chunks]), coq_bytes(out), coq_bytes(rep))
+         for chunks, out, rep in sessions]))
+
+
+def sessions_case(stack, hist, obs, verdict):
+    c = {"suite": "telnet-sessions", "stack": stack, "sessions": hist, "grammar": True,
+         "got": [{"data": o["data"].hex(), "replies": o["replies"].hex(), "late": o["late"].hex(), "exc": o["exc"],
+                  "open_exc": o["open_exc"], "own_connection": o["new_conn"], "probes": o["probes"]} for o in obs],
+         "want": [dict(zip(("data", "replies"), (x.hex() for x in spec(c15_sessions.toks_of(s))))) for s in hist]}
+    if verdict:
+        c["failing_session"], c["why"] = verdict[0], verdict[1]
+    return c
+
+
+def run_sessions_suite(rep, rng, thorough, cases, terms, dist):
+    """several sessions on one transport object; returns the indices (into cases) the oracle rejects"""
+    S = c15_sessions
+    me = sys.modules[__name__]
+    fails = []
+    shapes = [(sh, ["rand"]) for sh in S.CORPUS]
+    shapes += [(S.gen_history_shape(rng, me), [None, None, "bytes"] if thorough else [None, None])
+               for _ in range(400 if thorough else 60)]
+    sd = dist.setdefault("sessions", {"histories": 0, "runs": 0, "sessions_hist": {}, "between": {}, "probes": {},
+                                      "partial_tails": 0, "cmds_before_reopen_ge_limit": 0})
+    for shape, hows in shapes:
+        sd["histories"] += 1
+        sd["sessions_hist"][len(shape)] = sd["sessions_hist"].get(len(shape), 0) + 1
+        total = 0
+        for s in shape[:-1]:
+            k = "%s+%s" % (s["fault"], s["end"])
+            sd["between"][k] = sd["between"].get(k, 0) + 1
+            sd["partial_tails"] += 1 if s["partial"] else 0
+            total += sum(1 for t in s["tokens"] if t[0] == "C")
+        sd["cmds_before_reopen_ge_limit"] += 1 if total >= 10 else 0
+        for s in shape:
+            for pr in s["probes"]:
+                sd["probes"][pr] = sd["probes"].get(pr, 0) + 1
+        for how in hows:
+            hist = S.materialise(rng, me, shape, how)
+            key = tuple((tuple(s["chunks"]), s["fault"], s["errno"], tuple(s["probes"]), s["end"]) for s in hist)
+            rep.case(("s", key), nontrivial=True)
+            for stack, counting in (("sync", True), ("async", False)):
+                obs = S.RUNNERS[stack](hist)
+                sd["runs"] += 1
+                verdict = S.judge(me, hist, obs)
+                terms.append(sessions_term(counting, [([bytes.fromhex(c) for c in s["chunks"]], o["data"], o["replies"])
+                                                     for s, o in zip(hist, obs)]))
+                cases.append(sessions_case(stack, hist, obs, verdict))
+                if verdict:
+                    fails.append(len(cases) - 1)
+    return fails
 
 
 def run(rep):
@@ -294,17 +363,24 @@ def run(rep):
                 terms.append(case_term(counting, chunks, r[0], r[1]))
                 cases.append({"stack": name, "chunks": [c.hex() for c in chunks], "got_data": r[0].hex(),
                               "got_replies": r[1].hex(), "exc": r[2], "grammar": False})
-    bad, log = common.eval_cases(rep.workdir, "cases_c15", HEADER, terms, "chk",
-                                 case_type="bool * list bytes * bytes * bytes")
+    # several sessions on one transport object (model: run_sessions; oracle per session)
+    sess_fail = run_sessions_suite(rep, rng, thorough, cases, terms, dist)
+    oracle_fail_all = set(oracle_fail) | set(sess_fail)
+    bad, log = common.eval_cases(rep.workdir, "cases_c15", HEADER, terms, "chk", case_type=CASE_TYPE)
     rep.coverage["correspondence"] = {"suite": "telnet-neg", "cases": len(terms), "distribution": dist,
                                       "model_disagreements": None if bad is None else len(bad),
-                                      "oracle_failures": len(oracle_fail)}
+                                      "oracle_failures": len(oracle_fail) + len(sess_fail)}
     rep.coverage["generated_from"] = common.source_hashes(SOURCES)
     rep.coverage["generated"] = info
     rep.rule = ("streams = token lists (<=10 IAC verb opt commands, data without 0xFF, NULs included) + corpus; "
                 "every single cut, 1-byte reads, all double cuts for the first streams, random multi-cuts; "
                 "both real transports over scripted sockets; non-trivial = at least one command and at least one cut; "
-                "distinct = (stream, segmentation)")
+                "distinct = (stream, segmentation).  telnet-sessions: 2-4 sessions on ONE transport object, each with its own token "
+                "stream (typical 10-command session starts, 5-9 commands, a few; optionally stopping inside a command) and its own "
+                "segmentation (whole / 1-byte / one cut / random cuts, two segmentations per history); between sessions close(), "
+                "peer reset (recv/send raise ECONNRESET or EPIPE) + close(), peer reset without close(), peer EOF + close(), the "
+                "fault seen by nobody / a write / a read / isalive(); sync on the real Socket class over a scripted socket module, "
+                "asyncio over a scripted open_connection; fixed corpus + random; distinct = (chunks, fault, probes, end) per session")
     # property oracle failures on the implementation are violations with a concrete replay
     for ix in oracle_fail[:5]:
         c = cases[ix]
@@ -312,6 +388,22 @@ def run(rep):
         rep.violation("Telnet %s transport delivered/replied wrongly: data %s (want %s) replies %s (want %s) exc %s" % (
             c["stack"], c["got_data"], c["want_data"], c["got_replies"], c["want_replies"], c["exc"]),
             {"suite": "telnet-neg", "case": c, "rerun": "./check C15 --replay <this file>"})
+    picked, seen_kinds = [], set()
+    for ix in sess_fail:      # one per (transport, how the previous session ended, what is wrong), at most five
+        c = cases[ix]
+        i = c["failing_session"]
+        kind = (c["stack"], c["sessions"][i - 1]["fault"] + c["sessions"][i - 1]["end"] if i else "", c["why"])
+        if kind not in seen_kinds and len(picked) < 5:
+            seen_kinds.add(kind)
+            picked.append(ix)
+    for ix in picked:
+        c = cases[ix]
+        i = c["failing_session"]
+        rep.violation("Telnet %s transport, session %d of %d on one transport object (after %s): %s: data %s (want %s) replies %s (want %s)" % (
+            c["stack"], i + 1, len(c["sessions"]),
+            "+".join("%s/%s" % (x["fault"], x["end"]) for x in c["sessions"][:i]) or "nothing", c["why"],
+            c["got"][i]["data"], c["want"][i]["data"], c["got"][i]["replies"], c["want"][i]["replies"]),
+            {"suite": "telnet-sessions", "case": c, "rerun": "./check C15 --replay <this file>"})
     if bad is None:
         rep.broken.append("correspondence telnet-neg (model evaluation failed)")
         rep.notes.append(log)
@@ -319,19 +411,39 @@ def run(rep):
         # model and implementation disagree: a property violation only if the oracle also fails
         for ix in bad[:5]:
             c = cases[ix]
-            if ix in oracle_fail:
+            if ix in oracle_fail_all:
                 continue
-            if c.get("grammar"):
+            if c.get("suite") == "telnet-sessions":
+                rep.broken.append("correspondence telnet-sessions: model differs from implementation on a history of sessions")
+            elif c.get("grammar"):
                 # inside the property's domain, oracle fine => implementation right, model differs
                 rep.broken.append("correspondence telnet-neg: model differs from implementation on a grammar stream")
             else:
                 rep.broken.append("correspondence telnet-neg: model differs from implementation outside the grammar")
             rep.notes.append("disagreement: %r" % (c,))
-        if not oracle_fail:
+        if not oracle_fail_all:
             # search for a failing input of the property near the disagreement: all cuts of the stream
             found = False
             for ix in bad[:5]:
                 c = cases[ix]
+                if c.get("suite") == "telnet-sessions":
+                    # other segmentations of the same history
+                    shape = [dict(x, tokens=c15_sessions.toks_of(x), partial=bytes.fromhex(x["partial"])) for x in c["sessions"]]
+                    for how in ["whole", "bytes"] + [None] * 30:
+                        hist = c15_sessions.materialise(rng, sys.modules[__name__], shape, how)
+                        for name in ("sync", "async"):
+                            obs = c15_sessions.RUNNERS[name](hist)
+                            v = c15_sessions.judge(sys.modules[__name__], hist, obs)
+                            if v:
+                                rep.violation("Telnet %s transport wrong in session %d of a history: %s" % (name, v[0] + 1, v[1]),
+                                              {"suite": "telnet-sessions", "case": sessions_case(name, hist, obs, v)})
+                                found = True
+                                break
+                        if found:
+                            break
+                    if found:
+                        break
+                    continue
                 s = b"".join(bytes.fromhex(x) for x in c["chunks"])
                 if "tokens" not in c:
                     continue
@@ -359,6 +471,18 @@ def replay(path):
     if not c:
         print("nothing to replay (no concrete input): %s" % r.get("what"))
         return 1
+    if r.get("suite") == "telnet-sessions" or c.get("suite") == "telnet-sessions":
+        hist = c["sessions"]
+        obs = c15_sessions.RUNNERS[c["stack"]](hist)
+        for i, (s_, o) in enumerate(zip(hist, obs)):
+            want = spec(c15_sessions.toks_of(s_))
+            print("session %d: chunks %s then %s%s, %s" % (i + 1, [bytes.fromhex(x) for x in s_["chunks"]], s_["fault"],
+                                                       (" seen by " + "/".join(s_["probes"])) if s_["probes"] else "", s_["end"]))
+            print("  delivered:", o["data"], "replied:", o["replies"], "exc:", o["exc"] or o["open_exc"], "probes:", o["probes"])
+            print("  expected :", want[0], want[1])
+        v = c15_sessions.judge(sys.modules[__name__], hist, obs)
+        print("property holds on this history" if not v else "property FAILS on this history: session %d: %s" % (v[0] + 1, v[1]))
+        return 1 if v else 0
     chunks = [bytes.fromhex(x) for x in c["chunks"]]
     fn = run_sync if c["stack"] == "sync" else run_async
     got = fn(chunks)
@@ -377,11 +501,21 @@ MANIFEST = {
             "any IAC verb opt commands, at most `limit` for the counting sync transport) and EVERY segmentation into non-empty "
             "recv() results, the concatenated read() results are the data minus NULs and the replies are the correct ones, in order; "
             "corollaries seg_independent and sync_eq_async; the pinned commit's local control buffer is refuted by a vm_compute witness. "
+            "sessions_invisible: on ONE transport object every session of a history (open() again after close(), after a peer reset with or "
+            "without close()) is negotiated like a first session, for every segmentation of every session and whatever state the earlier "
+            "sessions left behind (model op reopen); an open() that keeps the answered-commands counter / pending control sequence is refuted "
+            "by vm_compute witnesses. "
             "Axiom-free (Print Assumptions recorded). Tie: Gen_Telnet.v (constants, limits) regenerated from /repo on every run; the model "
-            "[run] is executed by vm_compute on the same chunk lists as both real transports (scripted socket / StreamReader) and must agree; "
-            "an independent token-level oracle decides the property on the implementation.",
+            "[run] / [run_sessions] is executed by vm_compute on the same chunk lists as both real transports (scripted socket / StreamReader; "
+            "for histories the real Socket class over a scripted socket module and a scripted asyncio.open_connection, connections reset or "
+            "closed by the peer between sessions) and must agree; an independent token-level oracle decides the property on the implementation, "
+            "per session (a connection of its own, data, replies on its connection, nothing raised, nothing written after the fault).",
     "note": "Trusted: Coq kernel + vm_compute; the hand model coq/model/Telnet.v (tied by correspondence on all 1-cut, many 2-cut, 1-byte and random "
-            "segmentations of generated grammar streams and on malformed streams); gen/gen_telnet.py; scripted sockets. Not modelled: the real socket, "
-            "timeouts, the socket-timeout bump after the 10th command.",
+            "segmentations of generated grammar streams, on malformed streams and on histories of 2-4 sessions); gen/gen_telnet.py; scripted sockets. "
+            "Not modelled: the real socket, timeouts, the socket-timeout bump after the 10th command. In the model open() = reopen forgets the whole state "
+            "regardless of how the previous session ended; that the real open()/close() do so after close(), peer reset (+/- close()) and peer EOF is "
+            "checked by correspondence + oracle only (the fault, the probes write/read/isalive and close() are not model ops). Sessions that stop inside a "
+            "command (IAC or IAC verb as the last bytes before the fault) are outside sessions_invisible's grammar hypothesis: correspondence + oracle only "
+            "(plus the second refutation witness).",
     "technique": "Coq proof by induction over recv chunks with a grammar invariant (byte-wise automaton refinement) + vm_compute correspondence against both transports",
 }
